@@ -9,7 +9,7 @@
 (* state, so the actions are plain predicates on the event.                        *)
 EXTENDS SetOps, TLC
 
-KnownIds == {"C11-KF1", "C11-KF2", "C11-KF3", "C11-KF4", "C11-KF5", "C11-KF6", "C11-KF7", "C11-KF8", "C11-KF9"}
+KnownIds == {"C11-KF4", "C11-KF9"}
 
 (* ---------------------------------------------------------------------------------------- *)
 (* C11-KF1  RadixSort::sort_u32 / Algorithm::execute: inputs of at most                       *)
